@@ -30,6 +30,13 @@ static inline u64 vf_ctlz64(u64 a, u1 zp){ return a==0 ? 64 : (u64)__builtin_clz
 static inline u32 vf_ctlz32(u32 a, u1 zp){ return a==0 ? 32 : (u32)__builtin_clz(a); }
 static inline u64 vf_cttz64(u64 a, u1 zp){ return a==0 ? 64 : (u64)__builtin_ctzll(a); }
 static inline u32 vf_cttz32(u32 a, u1 zp){ return a==0 ? 32 : (u32)__builtin_ctz(a); }
+static inline u8 vf_cttz8(u8 a, u1 zp){ return a==0 ? 8 : (u8)__builtin_ctz((u32)a); }
+static inline u16 vf_cttz16(u16 a, u1 zp){ return a==0 ? 16 : (u16)__builtin_ctz((u32)a); }
+/* funnel shifts: concat(a,b) shifted, amount taken modulo the width */
+#define VF_FSH(W, D) \
+static inline u##W vf_fshl##W(u##W a, u##W b, u##W c){ u32 s = (u32)(c % W); return s ? (u##W)(((D)a << s) | ((D)b >> (W - s))) : a; } \
+static inline u##W vf_fshr##W(u##W a, u##W b, u##W c){ u32 s = (u32)(c % W); return s ? (u##W)(((D)a << (W - s)) | ((D)b >> s)) : b; }
+VF_FSH(8, u32) VF_FSH(16, u32) VF_FSH(32, u64) VF_FSH(64, u128)
 static inline u8 vf_ctlz8(u8 a, u1 zp){ u8 n=0; if(a==0) return 8; for(int i=7;i>=0;i--){ if((a>>i)&1) break; n++; } return n; }
 static inline u16 vf_ctlz16(u16 a, u1 zp){ u16 n=0; if(a==0) return 16; for(int i=15;i>=0;i--){ if((a>>i)&1) break; n++; } return n; }
 /* constant-size block operations (aggregate copies): the built-in models are exact for a constant size */
